@@ -95,6 +95,8 @@ impl CacheData {
     /// Remove the oldest peers until we're under the max_peers limit
     pub fn try_remove_oldest_peers(&mut self, cfg: &BootstrapCacheConfig) {
         if self.peers.len() > cfg.max_peers {
+            #[cfg(maidsafe_safe_network_verif)]
+            let _verif_trim_timer = crate::verif::trim_timer();
             let mut peer_last_seen_map = HashMap::new();
             for (peer, addrs) in self.peers.iter() {
                 let mut latest_seen = Duration::from_secs(u64::MAX);
@@ -336,9 +338,13 @@ impl BootstrapCacheStore {
         );
 
         if let Ok(data_from_file) = Self::load_cache_data(&self.config) {
+            #[cfg(maidsafe_safe_network_verif)]
+            crate::verif::gate("flush.loaded");
             self.data.sync(&data_from_file);
         } else {
             warn!("Failed to load cache data from file, overwriting with new data");
+            #[cfg(maidsafe_safe_network_verif)]
+            crate::verif::gate("flush.load_failed");
         }
 
         if with_cleanup {
@@ -346,6 +352,8 @@ impl BootstrapCacheStore {
             self.data.try_remove_oldest_peers(&self.config);
         }
 
+        #[cfg(maidsafe_safe_network_verif)]
+        crate::verif::gate("flush.merged");
         self.write().inspect_err(|e| {
             error!("Failed to save cache to disk: {e}");
         })?;
@@ -370,11 +378,15 @@ impl BootstrapCacheStore {
             .inspect_err(|err| {
                 error!("Failed to open cache file using AtomicWriteFile: {err}");
             })?;
+        #[cfg(maidsafe_safe_network_verif)]
+        crate::verif::gate("write.opened");
 
         let data = serde_json::to_string_pretty(&self.data).inspect_err(|err| {
             error!("Failed to serialize cache data: {err}");
         })?;
         writeln!(file, "{data}")?;
+        #[cfg(maidsafe_safe_network_verif)]
+        crate::verif::gate("write.written");
         file.commit().inspect_err(|err| {
             error!("Failed to commit atomic write: {err}");
         })?;
